@@ -4,6 +4,28 @@ def part(name, pkg, test, execname, quick, thorough, inproc=False):
     return dict(name=name, pkg=pkg, test=test, exec=execname, inproc=inproc, quick=quick, thorough=thorough)
 
 PROPS = {
+    "C01": dict(
+        level="exploration",
+        technique="property-based testing (rapid): generated topologies + fault/event histories on real in-process meshes, judged by a Floyd-Warshall oracle",
+        assumptions=["links deliver each direction in order (as stream backends do)", "a node is restarted >= 1.2 s after it stopped (epoch granularity)",
+                     "goroutine interleavings inside a node are sampled, not enumerated", "convergence deadline 13 s (+ idle limit + 12 s after a silent failure)"],
+        parts=[
+            part("mesh", "netprops", "TestC01", "C01",
+                 quick=dict(checks=48, shards=8, budget_s=420),
+                 thorough=dict(checks=800, shards=16, budget_s=3000, shrink="3m")),
+        ],
+    ),
+    "C06": dict(
+        level="exploration",
+        technique="model-based property testing (rapid): delivery histories to one real node between scripted peers, reference model of accepted (epoch,seq)/seen IDs, snapshot-differential oracle",
+        assumptions=["replays are verbatim copies of an earlier update (same UpdateID and content)", "periodic floods switched off (route period 1 h) so every relay seen is caused by a delivery",
+                     "the suspected-duplicate notice re-bases the origin's epoch as the protocol defines (modelled)"],
+        parts=[
+            part("model", "netprops", "TestC06", "C06",
+                 quick=dict(checks=160, shards=8, budget_s=300),
+                 thorough=dict(checks=5000, shards=16, budget_s=3000, shrink="2m")),
+        ],
+    ),
     "C12": dict(
         level="exploration",
         technique="property-based testing (rapid): generated rule lists x packets against a reference first-match interpreter",
